@@ -614,35 +614,11 @@ def rule_H(ctx):
         def __hash__(self):
             return hash(self.t)
 
-    class O(orders.PyStub):
-        isa = ('Obs',)
-
-        def __init__(self, k, stamp=None):
-            if isinstance(k, ENUCoords):
-                self.k, self.position, self.timestamp = None, k, stamp
-            else:
-                self.k = k
-                self.position = ENUCoords(10.0 * k, 3.0 * k, 0.0)
-                self.timestamp = Stamp(100.0 * k)
-            self.features = []
-
-        def distanceTo(self, o):
-            return self.position.distanceTo(o.position)
-
-        def distance2DTo(self, o):
-            return self.position.distance2DTo(o.position)
-
-        def copy(self):
-            o = O(self.position.copy(), self.timestamp.copy())
-            o.k = self.k
-            o.features = list(self.features)
-            return o
-
-        def __getitem__(self, j):
-            return self.features[j]
-
-        def __setitem__(self, j, v):
-            self.features[j] = v
+    def O(k, stamp=None):
+        # the repository's own Obs (its feature list, its item access and its copy are the code's), tagged with its rank
+        if isinstance(k, ENUCoords):
+            return absint.real_obs(ctx, fn, k, stamp, k=None)
+        return absint.real_obs(ctx, fn, ENUCoords(10.0 * k, 3.0 * k, 0.0), Stamp(100.0 * k), k=k)
 
     class ArrayLike(orders.PyStub):
         """a sequence that is not a Python list (what numpy-based operators hand to addListToAF)"""
@@ -660,7 +636,7 @@ def rule_H(ctx):
         def __iter__(self):
             return iter(self.vals)
 
-    fn.update({'ENUCoords': ENUCoords, 'Obs': lambda p_, t_=None, *a_: O(p_, t_)})
+    fn.update({'ENUCoords': ENUCoords})
     fn['ObsTime'] = type('ObsTimeRef', (orders.PyStub,), {'readUnixTime': staticmethod(lambda t_: Stamp(t_))})()
     fn['__globals__']['ObsTime'] = fn['ObsTime']
 
@@ -673,7 +649,7 @@ def rule_H(ctx):
         # observation 0 holds the SAME value in columns 0 and 2 (a deletion by value instead of by position shows)
         val = lambda nm, k: Tok('tie') if (k == 0 and state.index(nm) in (0, 2)) else Tok('old', nm, k)
         for o in t.fields['_Track__POINTS']:
-            o.features = [val(nm, o.k) for nm in state]
+            o.fields['features'] = [val(nm, o.fields['k']) for nm in state]
         model = {nm: [val(nm, k) for k in range(NOBS)] for nm in state}
         return t, model, dk[0]
 
@@ -684,8 +660,8 @@ def rule_H(ctx):
         vals = {}
         for nm in names:
             vals[nm] = [t.call('getObsAnalyticalFeature', nm, k) for k in range(NOBS)]
-        widths = [len(o.features) for o in t.fields['_Track__POINTS']]
-        frame = [(o.position, o.timestamp) for o in t.fields['_Track__POINTS']]
+        widths = [len(o.fields['features']) for o in t.fields['_Track__POINTS']]
+        frame = [(o.fields['position'], o.fields['timestamp']) for o in t.fields['_Track__POINTS']]
         return names, vals, widths, cols, frame
     states = [()]
     for r in (1, 2, 3):
@@ -739,7 +715,7 @@ def rule_H(ctx):
                   case = {'table before (name -> column)': {nm: c for c, nm in enumerate(st)}, 'operation': label}
                   if r == 'resample':
                       names = t.call('getListAnalyticalFeatures')
-                      widths = [len(o.features) for o in t.fields['_Track__POINTS']]
+                      widths = [len(o.fields['features']) for o in t.fields['_Track__POINTS']]
                       if names or any(widths):
                           bad = dict(case, **{'names listed after': names, 'values carried per observation after': widths,
                                               'why': 'the table is reset by resampling: an observation that keeps old values shifts every feature created afterwards by that many columns'})
@@ -845,19 +821,8 @@ def rule_J(ctx):
         def copy(self):
             return Stamp(self.t)
 
-    class O(orders.PyStub):
-        isa = ('Obs',)
-
-        def __init__(self, k):
-            self.k = k
-            self.position = Pos(1.0 + k, 10.0 - 2.0 * k, 0.5 * k)
-            self.timestamp = Stamp(100.0 + 3.0 * k)
-            self.features = []
-
-        def copy(self):
-            o = O(self.k)
-            o.position, o.timestamp, o.features = self.position.copy(), self.timestamp.copy(), list(self.features)
-            return o
+    def O(k):
+        return absint.real_obs(ctx, fn, Pos(1.0 + k, 10.0 - 2.0 * k, 0.5 * k), Stamp(100.0 + 3.0 * k), k=k)          # the repository's own Obs
     VAL = {'a': [3.0, -1.5, 4.0, 2.0], 'b': [2.0, 2.0, -4.0, 1.0], 'c': [10.0, 20.0, 30.0, 50.0]}
 
     def mk(order):
@@ -869,8 +834,8 @@ def rule_J(ctx):
     def snap(t):
         names = t.call('getListAnalyticalFeatures')
         vals = {nm: t.call('getAnalyticalFeature', nm) for nm in names}
-        widths = [len(o.features) for o in t.fields['_Track__POINTS']]
-        frame = [tuple(o.position.c) + (o.timestamp.t,) for o in t.fields['_Track__POINTS']]
+        widths = [len(o.fields['features']) for o in t.fields['_Track__POINTS']]
+        frame = [tuple(o.fields['position'].c) + (o.fields['timestamp'].t,) for o in t.fields['_Track__POINTS']]
         return names, vals, widths, frame
 
     def eqv(u, v):
